@@ -151,6 +151,23 @@ pub fn min_utxo_template(outputs: usize) -> Template {
     Template { src, tx: "t".into() }
 }
 
+/// Validity bounds and metadata written with the built-ins that read the compiler's chain point (`tip_slot`,
+/// `slot_to_time`, `time_to_slot`), some of them with a start well after that point: whatever an instance does with
+/// the bounds of one transaction must not show in the next.
+pub fn validity_template(kind: usize) -> Template {
+    let (since, until, meta) = match kind % 5 {
+        0 => ("200000000 + quantity", "tip_slot() + 600", "slot_to_time(tip_slot() + 5)"),
+        1 => ("tip_slot()", "tip_slot() + quantity", "time_to_slot(1757711408000)"),
+        2 => ("time_to_slot(1757711408000)", "300000000", "tip_slot()"),
+        3 => ("150000000", "tip_slot() + 900000000", "slot_to_time(150000000)"),
+        _ => ("tip_slot() + 7", "tip_slot() + 8", "quantity"),
+    };
+    let src = format!(
+        "party Sender;\nparty Receiver;\n\ntx t(quantity: Int) {{\n    input source {{\n        from: Sender,\n        min_amount: Ada(quantity) + fees,\n    }}\n    output {{\n        to: Receiver,\n        amount: Ada(quantity),\n    }}\n    output {{\n        to: Sender,\n        amount: source - Ada(quantity) - fees,\n    }}\n    validity {{\n        since_slot: {since},\n        until_slot: {until},\n    }}\n    metadata {{\n        1: {meta},\n    }}\n}}\n"
+    );
+    Template { src, tx: "t".into() }
+}
+
 /// A mint under a Plutus (version 1-3, with a redeemer) or native script: the witness set, and with it the
 /// language view behind the script data hash, differs from template to template.
 pub fn script_template(version: u8, outputs: usize) -> Template {
@@ -318,7 +335,9 @@ pub fn run_c20(opts: &Opts, out: &mut Emitter) {
     let mut r = Rng::new(opts.seed ^ 0x2020);
     let pp = || store::pparams(false, 44, 155_381, 4310, true);
     let mk_template = |r: &mut Rng| -> Template {
-        if r.chance(1, 3) {
+        if r.chance(1, 4) {
+            validity_template(r.below(5) as usize)
+        } else if r.chance(1, 3) {
             script_template(r.below(4) as u8, r.below(3) as usize)
         } else if r.chance(1, 2) {
             min_utxo_template(r.below(5) as usize)
